@@ -140,6 +140,8 @@ func Run(matrix ConstMatrix, args ...interface{}) (Matrix, error) {
   upperTriangular  := false
   inSitu           := &InSitu{}
 
+  submatrix        := false
+
   gArgs := []interface{}{}
 
   // loop over optional arguments
@@ -153,11 +155,19 @@ func Run(matrix ConstMatrix, args ...interface{}) (Matrix, error) {
       inSitu = a
     case InSitu:
       panic("InSitu must be passed by reference")
+    case gaussJordan.Submatrix:
+      // the Cholesky route factors the full matrix, which does not give the
+      // factor of a selected sub-matrix: use the general route
+      submatrix = true
+      gArgs = append(gArgs, arg)
     default:
       // all other arguments are passed to the
       // Gauss-Jordan algorithm
       gArgs = append(gArgs, arg)
     }
+  }
+  if submatrix {
+    positiveDefinite = false
   }
   if inSitu.Id == nil {
     inSitu.Id = NullDenseMatrix(matrix.ElementType(), rows, rows)
